@@ -146,9 +146,46 @@ class _FilterBase(Contract):
         eng.assume(seq_split(self.P0))
 
     def accumulators(self, locs):
-        """identify the loop state by role from the suffix: it returns (A if fa else None, B if fb else None)."""
-        _need(locs, "selected", "unselected", "found_selected", "found_unselected")
-        return "selected", "unselected", "found_selected", "found_unselected"
+        """identify the loop state BY ROLE, not by name (a renamed local must not matter): the prefix, run on a token
+        map, leaves two empty dicts and two False flags; the suffix returns (A if fa else None, B if fb else None) - run
+        on marker objects it tells which dict is the selected / unselected part and which flag guards which"""
+        if getattr(self, "_roles", None):
+            return self._roles
+        pc = self.pc
+        base = {n: None for n in pc["locals"]}
+        base.update(x={"tok": 1}, selection=None, self=None)
+        try:
+            kind, pl = pc["prefix"](**base)
+        except Exception as e:
+            raise EngineLimit("Fn.filter prefix not runnable on a token map: %r" % (e,))
+        if kind != "fallthrough":
+            raise EngineLimit("Fn.filter prefix returns on a non-empty map")
+        dicts = [n for n, v in pl.items() if type(v) is dict and v == {} and n != "x"]
+        flags = [n for n, v in pl.items() if v is False]
+        if len(dicts) != 2 or len(flags) != 2:
+            raise EngineLimit("Fn.filter loop state is not two dict accumulators and two flags (restructured): %r %r" % (dicts, flags))
+        MA, MB = {"__marker__": "A"}, {"__marker__": "B"}
+        probe = dict(pl)
+        probe.update({dicts[0]: MA, dicts[1]: MB, flags[0]: True, flags[1]: True})
+        try:
+            k1, r1 = pc["suffix"](**probe)
+            probe.update({flags[0]: True, flags[1]: False})
+            k2, r2 = pc["suffix"](**probe)
+        except Exception as e:
+            raise EngineLimit("Fn.filter suffix not runnable on markers: %r" % (e,))
+        if k1 != "return" or not (isinstance(r1, tuple) and len(r1) == 2 and {id(r1[0]), id(r1[1])} == {id(MA), id(MB)}):
+            raise EngineLimit("Fn.filter suffix does not return the two accumulators")
+        a_sel = dicts[0] if r1[0] is MA else dicts[1]
+        a_uns = dicts[1] if r1[0] is MA else dicts[0]
+        # with flags[1] = False exactly one position became None: that position's flag is flags[1]
+        if r2[0] is None and r2[1] is not None:
+            a_fs, a_fu = flags[1], flags[0]
+        elif r2[1] is None and r2[0] is not None:
+            a_fs, a_fu = flags[0], flags[1]
+        else:
+            raise EngineLimit("Fn.filter suffix does not guard its parts by the two flags")
+        self._roles = (a_sel, a_uns, a_fs, a_fu)
+        return self._roles
 
     def inv(self, selected, unselected, fs, fu, Done, pt):
         LeafX, ValX, S = self.LeafX, self.ValX, self.S
@@ -413,13 +450,47 @@ class FnMergeLoop(Contract):
             out["no_discard_under_check"] = z3.Not(leafset(d, pt))
         return out
 
+    def merge_roles(self):
+        """the two accumulators BY ROLE (renaming them must not matter): the prefix leaves two empty dicts; the suffix
+        returns (merged, discard-or-None) - run on two non-empty marker dicts it tells which is which"""
+        if getattr(self, "_roles", None):
+            return self._roles
+        pc = self.pc
+
+        class KeysOnly(dict):
+            pass
+
+        base = {n: None for n in pc["locals"]}
+        base.update(x=KeysOnly(k1=1), x_=KeysOnly(k2=2), check=None, self=None)
+        try:
+            kind, pl = pc["prefix"](**base)
+        except Exception as e:
+            raise EngineLimit("Fn.merge prefix not runnable on token maps: %r" % (e,))
+        if kind != "fallthrough":
+            raise EngineLimit("Fn.merge prefix returns early on dict arguments")
+        dicts = [n for n, v in pl.items() if type(v) is dict and v == {}]
+        if len(dicts) != 2:
+            raise EngineLimit("Fn.merge loop state is not two dict accumulators (restructured): %r" % (dicts,))
+        MA, MB = {"__marker__": "A"}, {"__marker__": "B"}
+        probe = dict(pl)
+        probe.update({dicts[0]: MA, dicts[1]: MB})
+        try:
+            k1, r1 = pc["suffix"](**probe)
+        except Exception as e:
+            raise EngineLimit("Fn.merge suffix not runnable on markers: %r" % (e,))
+        if k1 != "return" or not (isinstance(r1, tuple) and len(r1) == 2 and r1[0] in (MA, MB) and (r1[0] is MA or r1[0] is MB)):
+            raise EngineLimit("Fn.merge suffix does not return (merged, discard)")
+        self._roles = (dicts[0], dicts[1]) if r1[0] is MA else (dicts[1], dicts[0])
+        return self._roles
+
     def call(self, case):
         piece, chk = case[:-1].split("[")
         eng = engine()
         self.pc = loops.pieces(self.fn, 0)
         _one_loop(self.pc, "Fn.merge")
         names = self.pc["locals"]
-        _need(names, "self", "x", "x_", "check", "result", "discarded")
+        _need(names, "self", "x", "x_", "check")
+        RES, DIS = self.merge_roles()
         self.P0 = P0 = fresh("P0", PathSort)
         eng.assume(seq_split(P0))
         self.check = boolean("check") if chk == "check" else None
@@ -468,7 +539,8 @@ class FnMergeLoop(Contract):
         eng.assume(z3.Implies(HD0(head(P0)), dis_nonempty))
         for f in self.inv(res0, dis0, Done, P0).values():
             eng.assume(f)
-        base.update(self=stub, x=self.x, x_=self.y, check=self.check, result=res0, discarded=dis0)
+        base.update(self=stub, x=self.x, x_=self.y, check=self.check)
+        base[RES], base[DIS] = res0, dis0
         if piece == "suffix":
             k0 = head(P0)
             eng.assume(z3.Implies(z3.Or(self.InX(k0), self.InY(k0)), Done(k0)))
@@ -504,8 +576,9 @@ class FnMergeLoop(Contract):
         if piece == "prefix":
             yield "falls_through", kind == "fallthrough"
             if kind == "fallthrough":
-                yield "result_starts_empty", payload["result"] == {} and type(payload["result"]) is dict
-                yield "discarded_starts_empty", payload["discarded"] == {} and type(payload["discarded"]) is dict
+                RES, DIS = self.merge_roles()
+                yield "result_starts_empty", payload[RES] == {} and type(payload[RES]) is dict
+                yield "discarded_starts_empty", payload[DIS] == {} and type(payload[DIS]) is dict
                 # semantic: the loop header's iterable, evaluated in the locals the prefix leaves, visits every key
                 # of either map exactly once (no coupling to how the code names or builds that collection)
                 try:
@@ -523,7 +596,8 @@ class FnMergeLoop(Contract):
                     yield "postcondition/" + n, f
             return
         Done1 = lambda k: z3.Or(self.Done(k), k == self.key.e)
-        for n, f in self.inv(payload["result"], payload["discarded"], Done1, P0).items():
+        RES, DIS = self.merge_roles()
+        for n, f in self.inv(payload[RES], payload[DIS], Done1, P0).items():
             yield "invariant_preserved/" + n, f
 
     def replay(self, case, clause, model, path):
